@@ -342,7 +342,7 @@ func genGraph(r rng, seed uint64, id, family string, k Knobs) *sdl.Program {
 	if r.p(k.PZero) {
 		nz := r.n(2, 3)
 		for z := 0; z < nz; z++ {
-			t := &sdl.Type{Name: fmt.Sprintf("%sZ%d", id, z), Zero: true, Ifaces: []int{r.IntN(p.NIfaces)}}
+			t := &sdl.Type{Name: fmt.Sprintf("%sZ%d", id, z), Zero: true, Ifaces: []int{r.IntN(p.NIfaces)}, Scalar: r.p(0.4)}
 			if r.p(0.5) {
 				t.Funcs = []string{pick(r, funcVals)}
 			}
